@@ -164,6 +164,9 @@ func (ctx *actorContext) UnWatch(target ActorRef) {
 }
 
 func (ctx *actorContext) onWatch(m *messages.Watch) {
+	if ctx.parentRef != nil && ctx.sender.Equal(ctx.parentRef) {
+		return // the parent learns of the termination anyway, exactly once
+	}
 	if ctx.status.Load() >= actorStatusTerminating {
 		ctx.deliverySystemMessage(ctx.sender, ctx.sender, ctx.ref, nil, &messages.Terminated{TerminatedProcess: ctx.ref})
 	} else {
